@@ -10,6 +10,10 @@ import (
 type eng struct{ t *testing.T }
 
 func (e eng) Generate(seed uint64, prop, tier string) any {
+	if prop == "C08" && seed%6 == 1 {
+		// connected UDP sockets (Client.Dial / Client.Enroll): boundaries and one Write, one datagram
+		return GenerateClient(seed, prop, tier)
+	}
 	if prop == "C08" || (prop == "C17" || prop == "C06" || prop == "C05") && seed%7 == 0 {
 		return GenerateUDP(seed, tier)
 	}
